@@ -313,7 +313,7 @@ var noInitPkgs = map[string]bool{"runtime": true, "internal/abi": true, "interna
 	"golang.org/x/sys/cpu": true, "internal/runtime/atomic": true}
 
 // user init functions (init#k) that are executed; all others are skipped
-var userInitAllow = map[string]bool{"github.com/ozontech/insane-json": true, "github.com/vitkovskii/insane-json": true}
+var userInitAllow = map[string]bool{"github.com/ozontech/insane-json": true, "github.com/vitkovskii/insane-json": true, "github.com/go-faster/jx": true}
 
 
 func (in *Interp) newFrame(g *Goroutine, caller *Frame, fn *ssa.Function, args []Value, env []Value) *Frame {
